@@ -121,6 +121,10 @@ incremental = false
     prelude = '''#![allow(dead_code, unused_imports)]
 pub use core::marker::PhantomData;
 pub use std::borrow::Cow;
+pub use std::rc::Rc;
+pub use std::sync::Arc;
+pub use core::ops::Range;
+pub use std::collections::{BTreeMap, BTreeSet};
 pub use scale_info::{TypeInfo, meta_type, MetaType};
 pub use ::scale_info as si_renamed;
 pub trait Tr { type A; }
